@@ -206,3 +206,49 @@ pub fn fmt_log(trace: &Trace) -> String {
 	}
 	s
 }
+
+
+/// Small-time cases for the multi-thread legs: every child exits by itself within 80 ms, graces,
+/// reactions and gaps are a few milliseconds, no job termination and no handle drop.
+pub fn mt_case() -> impl Strategy<Value = JobCase> {
+	let small = prop_oneof![Just(0u32), Just(1), Just(2), Just(5), Just(20), Just(25)];
+	let child = (prop_oneof![Just(3u32), Just(20), Just(60), Just(80)], prop_oneof![2 => Just(React::Ignore), 4 => small.clone().prop_map(React::ExitAfter)])
+		.prop_map(|(d, react)| ChildSpec { self_exit: Some(d), code: 1, react });
+	let sig = 0u8..10;
+	let grace = prop_oneof![Just(0u32), Just(1), Just(5), Just(20)];
+	let op = prop_oneof![
+		6 => Just(Op::Start),
+		3 => Just(Op::Stop),
+		4 => (sig.clone(), grace.clone()).prop_map(|(sig, grace)| Op::StopSig { sig, grace }),
+		3 => Just(Op::Restart),
+		4 => (sig.clone(), grace.clone()).prop_map(|(sig, grace)| Op::RestartSig { sig, grace }),
+		3 => Just(Op::TryRestart),
+		4 => (sig.clone(), grace.clone()).prop_map(|(sig, grace)| Op::TryRestartSig { sig, grace }),
+		2 => sig.clone().prop_map(Op::Signal),
+		3 => Just(Op::ToWait),
+		3 => Just(Op::Run),
+		1 => small.clone().prop_map(|delay| Op::RunAsync { delay }),
+	];
+	let step = (prop_oneof![4 => Just(0u32), 3 => small], op, 1u8..4).prop_map(|(gap, op, waiters)| Step { gap, op, waiters });
+	(
+		proptest::collection::vec(child, 1..4),
+		prop_oneof![4 => Just(vec![]), 1 => proptest::collection::vec(0u8..4, 1..3)],
+		proptest::collection::vec(step, 4..20),
+		proptest::bool::weighted(0.7),
+		prop_oneof![5 => Just(None), 2 => Just(Some(Op::Delete)), 2 => Just(Some(Op::DeleteNow))],
+		prop_oneof![Just(0u32), Just(1), Just(5), Just(30)],
+	)
+		.prop_map(|(children, spawn_fail, mut steps, err_handler, term, term_gap)| {
+			if let Some(op) = term {
+				steps.push(Step { gap: term_gap, op, waiters: 2 });
+			}
+			(children, spawn_fail, steps, err_handler)
+		})
+		.prop_map(|(children, spawn_fail, steps, err_handler)| JobCase {
+			sim: SimSpec { children, spawn_fail, ..Default::default() },
+			steps,
+			track: true,
+			sched: 0,
+			err_handler,
+		})
+}
